@@ -7,6 +7,8 @@ src=/tmp/seedout/$id
 wt=/tmp/confirm_${id}${suf}
 rm -rf $wt; git -C /repo worktree prune; git -C /repo worktree add -q --detach $wt HEAD || exit 2
 cd $wt
+# one BLAS/torch thread per process: several confirmations run side by side and the PPO tests otherwise oversubscribe the cores
+export OMP_NUM_THREADS=1 MKL_NUM_THREADS=1 OPENBLAS_NUM_THREADS=1
 run() { PYTHONPATH=$wt PYTHONHASHSEED=0 timeout 900 /venv/bin/python "$@" 2>&1 | grep -v conda; return ${PIPESTATUS[0]}; }
 run $src/demo$suf.py > $src/confirm${suf}_clean.log; rc_clean=$?
 git apply $src/patch$suf.diff || { echo '{"applies": false}' > $src/confirm$suf.json; cd /; git -C /repo worktree remove --force $wt; exit 1; }
